@@ -179,9 +179,12 @@ def handle (j : Json) : Except String Json := do
       | .ok .null => pure none
       | .ok v => pure (some (← asList natList v))
       | .error _ => pure none
+    let shuffle ← match j.getObjVal? "shuffle" with
+      | .ok v => v.getBool?
+      | .error _ => pure false
     let bssO := match given with
       | some bss => some bss
-      | none => Loader.batches order bs dl
+      | none => if Loader.randomSamplerRaises (f.numRows ops) shuffle then none else Loader.batches order bs dl
     match bssO with
     | none => pure raises
     | some bss =>
